@@ -2,7 +2,8 @@ from contracts.histories import ApiHistories, KfRemoveThroughParent
 from contracts.concat import ConcatHistories
 from contracts.removal import CONTRACTS as _R
 from contracts.tree import SweepDeadEntries
-CONTRACTS = list(_R) + [SweepDeadEntries, ApiHistories, KfRemoveThroughParent, ConcatHistories]
+from contracts.repaired import ConcatNameSet, ConcatParentSet
+CONTRACTS = list(_R) + [SweepDeadEntries, ApiHistories, KfRemoveThroughParent, ConcatHistories] + [ConcatNameSet, ConcatParentSet]
 
 MANIFEST = {
     "category": "proof",
